@@ -119,3 +119,29 @@ pub fn err_tok<E: std::fmt::Debug>(e: &E) -> String {
     let v: String = s.chars().take_while(|c| c.is_alphanumeric() || *c == '_').collect();
     format!("E:{}", v)
 }
+
+/// fields of a serialised struct in the given order (fallback writer for structs without public getters)
+pub fn serde_fields(v: &serde_json::Value, names: &[&str]) -> String {
+    fn one(x: &serde_json::Value) -> String {
+        match x {
+            serde_json::Value::Null => "xNaN".to_string(),
+            serde_json::Value::Bool(b) => tok(b),
+            serde_json::Value::Number(n) => {
+                if n.is_u64() {
+                    format!("{}", n.as_u64().unwrap())
+                } else if n.is_i64() {
+                    format!("{}", n.as_i64().unwrap())
+                } else {
+                    tok(&n.as_f64().unwrap())
+                }
+            }
+            serde_json::Value::Array(xs) => {
+                let mut out = vec![format!("L{}", xs.len())];
+                out.extend(xs.iter().map(one));
+                out.join(" ")
+            }
+            _ => "?".to_string(),
+        }
+    }
+    names.iter().map(|n| one(&v[*n])).collect::<Vec<_>>().join(" ")
+}
